@@ -495,6 +495,7 @@ func init() {
 			fmt.Println(err)
 			return 2
 		}
+		sw.ViaHandler = true
 		w := &c09Worker{w: sw}
 		defer w.Close()
 		out, err := w.Run(rp.Path)
